@@ -63,6 +63,8 @@ def gen_sessions(rng, count):
     out.append(dict(id="r2", tab=4, file=listing, expr="half; half(1); half(0); half(1, 2)", stdin=None))
     out.append(dict(id="r3", tab=8, file=listing, expr=None, stdin=["half", "half(2)", "⌈2.5⌉ + ⌊2.5⌋", "5 µm", "20 °C as °K", "[1, 2; 3, 4]"], end="EXIT", after=[]))
     out.append(dict(id="r4", tab=4, file=None, expr="1/0; nope; sin(1,2); ceil(i); 5 m + 1; 2.5!; |sin|; ⌈i⌉; 3(4); [1, 5 m]; inverse([1,2;2,4]); 1 m as kg; pi = 3; delete sin; delete nope; ss = sin; ss(a) = a; delete ss(a); delete pi(a); e(x) = x", stdin=None))
+    out.append(dict(id="r6", tab=4, file="Rate = 10\nrate = 20\nrAte = 30\nff(x) = x + RaTe\n", expr="RATE; RATE + 1; ff(1); Sin(0); PI; Rate; rate", stdin=None))
+    out.append(dict(id="r7", tab=4, file=None, expr=None, stdin=["Rate = 10", "rate = 20", "RATE", "raTE = RATE", "raTE", "clear", "rate"], end="exit", after=[]))
     out.append(dict(id="r5", tab=4, file="a1 = 1\nb1 = 2\nc1 = 3\nd1 = [1,2;3,4]\ne1 = 5 km\nf1(x) = x\n", expr="clear; a1; b1; c1; d1; e1; f1; pi; sin", stdin=None))
     out.append(dict(id="c6", tab=4, file=None, expr=None, stdin=[], end=None, after=[]))
     return out
@@ -194,7 +196,64 @@ def run_front(ctx, repeat=1, cross_modes=True, vary_env=False):
         rep.oblige("front: %d repeated fresh processes per session under varied environment are byte-identical" % repeat, nondet == 0, "%d differ" % nondet)
     if cross_modes:
         cross_mode_check(ctx, rng, 60 if quick else 600)
+    if vary_env:
+        ambient_monitor(ctx, [s for s in sessions if s["id"] in ("c0", "c1", "r2", "r3", "s0", "s1", "s2")])
     rep.samples.append(dict(stream="front", case=describe(sessions[0])))
+
+
+ALLOWED_PATH = re.compile(r"^(/etc/ld\.so\.|/lib/|/lib64/|/usr/lib|/proc/self/|/sys/devices/system/cpu|/dev/(tty|null|urandom)$|/etc/localtime$|/usr/share/zoneinfo/)")
+SYSCALL_PATH = re.compile(r"^\d+\s+(?:openat|open|access|stat|lstat|statx|readlink|readlinkat|newfstatat|faccessat2?|execve)\((?:AT_FDCWD, |\d+, )?\"((?:[^\"\\]|\\.)*)\"")
+
+
+def ambient_monitor(ctx, sessions):
+    """C19: the front end reads only its arguments, the named file and stdin.  A few sessions are run under strace;
+    every path the process touches must be the loader's, /proc/self, or the file it was given."""
+    rep = ctx["rep"]
+    if shutil.which("strace") is None:
+        rep.notes.append("ambient-state monitor skipped: strace not available")
+        return
+    binp = core.calculator_bin(ctx["repo"])
+    bad = n = 0
+    for s in sessions:
+        d = tempfile.mkdtemp(prefix="calc-amb-", dir=core.WORK)
+        try:
+            args = ["strace", "-f", "-qq", "-e", "trace=%file", "-o", os.path.join(d, "trace.txt"), binp, "-t", str(s["tab"])]
+            given = None
+            if s["file"] is not None:
+                given = os.path.join(d, "preload.txt")
+                open(given, "w", encoding="utf-8", newline="").write(s["file"])
+                args += ["-f", given]
+            stdin_data = ""
+            if s["expr"] is not None:
+                args += ["--", s["expr"]]
+            else:
+                stdin_data = "".join(l + "\n" for l in stdin_lines(s))
+            home = os.path.join(d, "home")
+            os.makedirs(home)
+            p = subprocess.run(args, input=stdin_data.encode(), stdout=subprocess.PIPE, stderr=subprocess.PIPE,
+                               env={"PATH": os.environ.get("PATH", ""), "TERM": "xterm", "HOME": home, "XDG_CONFIG_HOME": os.path.join(home, ".config")},
+                               cwd=home, timeout=60)
+            tr = os.path.join(d, "trace.txt")
+            if not os.path.exists(tr) or os.path.getsize(tr) == 0:
+                rep.notes.append("ambient-state monitor skipped: strace produced no trace (ptrace not permitted?)")
+                return
+            n += 1
+            for line in open(tr, errors="replace"):
+                m = SYSCALL_PATH.match(line)
+                if not m:
+                    continue
+                path = m.group(1)
+                if path in ("", binp, given) or ALLOWED_PATH.match(path):
+                    continue
+                bad += 1
+                if bad <= 3:
+                    rep.violation("front: the process touches %r, which is neither the loader's nor the file it was given (session %s)" % (path, describe(s)[:200]),
+                                  case=json_case(s), impl=[line.strip()[:300]], stream="ambient",
+                                  oracle="the front end reads only its arguments, the named file and stdin")
+                break
+        finally:
+            shutil.rmtree(d, ignore_errors=True)
+    rep.oblige("ambient: %d sessions under strace touch no path outside the loader's, /proc/self and the given file" % n, bad == 0, "%d do" % bad)
 
 
 def describe(s):
